@@ -64,6 +64,8 @@ class ExprMixin:
         d = self.branch(t, fr)
         if d:
             self.narrow(node, fr)
+        elif isinstance(node, ast.UnaryOp) and isinstance(node.op, ast.Not):
+            self.narrow(node.operand, fr)
         return d
 
     def narrow(self, test, fr):
